@@ -5,7 +5,7 @@ from ..report import Candidate
 KERNELS = [('add', '+'), ('times', '*'), ('take_away', '-'), ('divide', '/'), ('reminder', '%'), ('abs', 'abs'), ('round', 'round'), ('floor', 'floor'), ('ciel', 'ceil')]
 
 
-def arithmetic(ctx, which=None, ill_typed=False):
+def arithmetic(ctx, which=None, ill_typed=False, all_variants=False):
     run = ctx.run
     run.bounds['arithmetic'] = 'every pair of finite f64 (and the ill-typed shapes boolean / absent) per arithmetic function'
     run.assume('Kani: RandomState::new stubbed (no getrandom under CBMC); Context and results are forgotten, not dropped')
@@ -13,16 +13,25 @@ def arithmetic(ctx, which=None, ill_typed=False):
     specs = []
     for f, name in ks:
         specs.append((f'k_{f}_finite', f'non-finite:{name}', f'({name} a b) on finite numbers is nothing, an integer or a finite double'))
+        if all_variants: specs.append((f'k_{f}_integer_pairs', f'panic-or-non-finite:{name}', f'({name} ..) on integer arguments of either sign over their full 64-bit ranges: no panic, result nothing / integer / finite double'))
         if ill_typed: specs.append(  # not registered: dropping the unmatched JsonValue drags the recursive drop glue in (timeout, DESIGN 4)
             (f'k_{f}_ill_typed_is_nothing', f'ill-typed:{name}', f'({name} ..) with a boolean or absent argument is nothing'))
     fam, cands, res = kani_family(ctx, 'fn.arithmetic', 'arithmetic functions never produce a non-finite number (which has no JSON spelling) and give nothing for ill-typed arguments', specs,
                                   [f'number_{f}.rs' for f, _ in ks], timeout_s=600)
     from ..cli import run_jawk, show
-    DEMO = {'+': '(+ 1e308 1e308)', '*': '(* 1e200 1e200)', '-': '(- -1e308 1e308)', '/': '(/ 1e308 1e-308)'}
+    # native replay: the function on every pair of boundary values; a Kani counterexample is reported only when one of them
+    # panics or prints a non-number (CBMC's float model over-approximates some operations, e.g. the remainder)
+    BOUNDARY = ['0', '1', '-1', '2', '-9223372036854775808', '9223372036854775807', '18446744073709551615', '1e308', '-1e308', '5e-324', '0.5', '1e-308']
     for c in cands:
         name = c.role.split(':', 1)[1]
-        if c.role.startswith('non-finite') and name in DEMO:
-            r = run_jawk(ctx, ['--select', DEMO[name] + '=x', '--style', 'consise'], b'null')
-            c.replay = {'argv': ['--select', DEMO[name] + '=x'], 'stdout': show(r['stdout'])}
-            out = show(r['stdout'])
-            c.status = 'reproduced' if ('inf' in out or 'NaN' in out) else 'unit'
+        unary = name in ('abs', 'round', 'floor', 'ceil')
+        c.status = 'inconclusive'; c.unmodelled = 'CBMC floating-point / integer model (no native witness among the boundary values)'
+        for a in BOUNDARY:
+            for b in ([None] if unary else BOUNDARY):
+                expr = f'({name} {a})' if unary else f'({name} {a} {b})'
+                r = run_jawk(ctx, ['--select', expr + '=x', '--style', 'consise'], b'null')
+                out = show(r['stdout'])
+                if r['rc'] != 0 or 'inf' in out or 'NaN' in out or b'panicked' in r['stderr']:
+                    c.replay = {'argv': ['--select', expr + '=x'], 'rc': r['rc'], 'stdout': out, 'stderr': show(r['stderr'])[-200:]}
+                    c.status = 'reproduced'; c.unmodelled = None; break
+            if c.status == 'reproduced': break
